@@ -8,20 +8,26 @@ From Coq Require Import ZifyN ZifyBool.
    compiling and every theorem below is undischarged. *)
 Lemma gen_det_ok :
   GenC10.det_max = 4294967295 /\ GenC10.det_conv_bits = 32 /\ GenC10.det_always_le = 1 /\
+  GenC10.det_start_guarded = true /\
   GenC10.det_cmp_le = true /\ GenC10.det_hash_bytes = 4 /\
   GenC10.det_rate_from_config = true /\ GenC10.det_returns_rate = true /\
-  GenC10.det_hash_of_traceid_and_salt = true.
+  GenC10.det_hash_of_traceid_and_salt = true /\ GenC10.det_get_shape = true /\
+  GenC10.det_max = DET_MAX /\ GenC10.det_conv_bits = DET_BITS /\ GenC10.det_always_le = DET_ALWAYS /\
+  GenC10.det_cmp_le = DET_LE /\ GenC10.det_hash_bytes = DET_HASH_BYTES /\ GenC10.det_salt = DET_SALT.
 Proof. repeat split; reflexivity. Qed.
 
 Lemma gen_stress_ok :
   GenC10.stress_max = 18446744073709551615 /\ GenC10.stress_zero_becomes = 1 /\
-  GenC10.stress_always_le = 1 /\ GenC10.stress_cmp_le = true.
+  GenC10.stress_always_le = 1 /\ GenC10.stress_cmp_le = true /\
+  GenC10.stress_rate_shape = true /\ GenC10.stress_bound_shape = true /\ GenC10.stress_get_shape = true /\
+  GenC10.stress_max = STRESS_MAX /\ GenC10.stress_zero_becomes = STRESS_ZERO /\
+  GenC10.stress_always_le = STRESS_ALWAYS /\ GenC10.stress_cmp_le = STRESS_LE /\ GenC10.stress_seed = STRESS_SEED.
 Proof. repeat split; reflexivity. Qed.
 
 (* the numerator is the largest hash value: hashes are det_hash_bytes bytes wide *)
-Lemma det_max_is_top : GenC10.det_max = det_hash_range - 1.
+Lemma det_max_is_top : DET_MAX = det_hash_range - 1.
 Proof. reflexivity. Qed.
-Lemma stress_max_is_top : GenC10.stress_max = stress_hash_range - 1.
+Lemma stress_max_is_top : STRESS_MAX = stress_hash_range - 1.
 Proof. reflexivity. Qed.
 
 (* ---------- threshold arithmetic, generic ---------- *)
@@ -86,26 +92,29 @@ Lemma det_start_in_range rate :
   1 <= rate < 4294967296 ->
   det_start rate = Some {| d_rate := rate; d_bound := 4294967295 / rate |}.
 Proof.
-  intros Hr. unfold det_start, gen_bound, conv_u.
-  change GenC10.det_conv_bits with 32. change GenC10.det_max with 4294967295.
-  change (2 ^ 32) with 4294967296. rewrite Z.mod_small by lia.
-  destruct (rate =? 0) eqn:E; [apply Z.eqb_eq in E; lia|reflexivity].
+  intros Hr. unfold det_start, det_bound, gen_bound, conv_u.
+  change DET_BITS with 32. change DET_MAX with 4294967295.
+  change (2 ^ 32) with 4294967296. rewrite !Z.mod_small by lia.
+  destruct (4294967295 <? rate) eqn:E0; [apply Z.ltb_lt in E0; lia|].
+  destruct (1 <? rate) eqn:E1.
+  - destruct (rate =? 0) eqn:E; [apply Z.eqb_eq in E; lia|reflexivity].
+  - apply Z.ltb_ge in E1. assert (rate = 1) as -> by lia. reflexivity.
 Qed.
 
 Lemma det_sample_in_range rate h :
   1 <= rate < 4294967296 ->
-  det_sample rate h = Some (if rate <=? 1 then 1 else rate, spec_keep GenC10.det_max rate h).
+  det_sample rate h = Some (if rate <=? 1 then 1 else rate, spec_keep DET_MAX rate h).
 Proof.
   intros Hr. unfold det_sample. rewrite det_start_in_range by exact Hr.
   unfold det_get, gen_get, spec_keep, thr_cmp. cbn [d_rate d_bound].
-  change GenC10.det_always_le with 1. change GenC10.det_cmp_le with true.
-  change GenC10.det_max with 4294967295.
+  change DET_ALWAYS with 1. change DET_LE with true.
+  change DET_MAX with 4294967295.
   destruct (rate <=? 1) eqn:E; [reflexivity|].
   cbn [orb]. rewrite thr_iff by lia. reflexivity.
 Qed.
 
 Lemma det_keep_in_range rate h :
-  1 <= rate < 4294967296 -> det_keep rate h = spec_keep GenC10.det_max rate h.
+  1 <= rate < 4294967296 -> det_keep rate h = spec_keep DET_MAX rate h.
 Proof. intros Hr. unfold det_keep. rewrite det_sample_in_range by exact Hr. reflexivity. Qed.
 
 Lemma det_total_in_range rate h : 1 <= rate < 4294967296 -> det_sample rate h <> None.
@@ -116,9 +125,9 @@ Lemma det_le1_keeps rate h r k :
   rate <= 1 -> det_sample rate h = Some (r, k) -> r = 1 /\ k = true.
 Proof.
   intros Hr. unfold det_sample. destruct (det_start rate) as [i|] eqn:S; [|discriminate].
-  unfold det_start in S. destruct (gen_bound _ _ rate) as [b|]; [|discriminate].
+  unfold det_start in S. destruct (det_bound _ _ rate) as [b|]; [|discriminate].
   injection S as <-. unfold det_get, gen_get. cbn [d_rate d_bound].
-  change GenC10.det_always_le with 1.
+  change DET_ALWAYS with 1.
   destruct (rate <=? 1) eqn:E; [|apply Z.leb_gt in E; lia].
   intros [= <- <-]. split; reflexivity.
 Qed.
@@ -140,48 +149,67 @@ Proof. intros H1 H2. rewrite H1 in H2. injection H2 as <-. reflexivity. Qed.
 
 Lemma det_keep_as_bound rate h :
   1 <= rate < 4294967296 -> 0 <= h < det_hash_range ->
-  det_keep rate h = (h <=? GenC10.det_max / rate).
+  det_keep rate h = (h <=? DET_MAX / rate).
 Proof.
   intros Hr Hh. rewrite det_keep_in_range by exact Hr. unfold spec_keep.
   rewrite thr_iff by lia.
   destruct (rate <=? 1) eqn:E; [|reflexivity].
   apply Z.leb_le in E. assert (rate = 1) as -> by lia. cbn [orb].
   symmetry. apply Z.leb_le. change det_hash_range with 4294967296 in Hh.
-  change GenC10.det_max with 4294967295. lia.
+  change DET_MAX with 4294967295. lia.
 Qed.
 
 Lemma det_fraction rate :
   1 <= rate < 4294967296 ->
   let kept := countN (det_keep rate) (Z.to_N det_hash_range) in
-  kept = GenC10.det_max / rate + 1 /\
+  kept = DET_MAX / rate + 1 /\
   det_hash_range <= rate * kept <= det_hash_range + rate - 1.
 Proof.
   intros Hr kept. subst kept.
-  rewrite (countN_ext (det_keep rate) (fun h => h <=? GenC10.det_max / rate)).
+  rewrite (countN_ext (det_keep rate) (fun h => h <=? DET_MAX / rate)).
   2:{ intros k Hk. apply det_keep_as_bound; [exact Hr|].
       change det_hash_range with 4294967296 in *. lia. }
-  pose proof (count_threshold GenC10.det_max rate) as H.
-  change GenC10.det_max with 4294967295 in *. change det_hash_range with 4294967296.
+  pose proof (count_threshold DET_MAX rate) as H.
+  change DET_MAX with 4294967295 in *. change det_hash_range with 4294967296.
   change (4294967295 + 1) with 4294967296 in H.
   specialize (H ltac:(lia) ltac:(lia)). cbv zeta in H. lia.
 Qed.
 
-(* the uint32 conversion: a rate that is a multiple of 2^32 makes Start divide by zero.
-   Such rates are outside C10's range (1..2^31); the crash itself is C28's subject. *)
-Lemma det_crash_multiple k : det_start (k * 4294967296) = None.
+(* Start never panics, for every Go int: the division only happens for 1 < rate <= 2^32-1 *)
+Lemma det_start_total rate :
+  -9223372036854775808 <= rate < 9223372036854775808 -> det_start rate <> None.
 Proof.
-  unfold det_start, gen_bound, conv_u. change GenC10.det_conv_bits with 32.
-  change (2 ^ 32) with 4294967296. rewrite Z.mod_mul by lia. reflexivity.
+  intros Hr. unfold det_start, det_bound, gen_bound, conv_u.
+  change DET_BITS with 32. change DET_MAX with 4294967295.
+  change (2 ^ 32) with 4294967296.
+  destruct (4294967295 <? rate mod 18446744073709551616) eqn:E0; [discriminate|].
+  destruct (1 <? rate) eqn:E1; [|discriminate].
+  apply Z.ltb_ge in E0. apply Z.ltb_lt in E1.
+  rewrite Z.mod_small in E0 by lia. rewrite Z.mod_small by lia.
+  destruct (rate =? 0) eqn:E; [apply Z.eqb_eq in E; lia|discriminate].
+Qed.
+
+(* rates that do not fit in 32 bits (outside C10's range): bound 0, only hash 0 is kept *)
+Lemma det_big_rate rate h :
+  4294967296 <= rate < 9223372036854775808 ->
+  det_sample rate h = Some (rate, h <=? 0).
+Proof.
+  intros Hr. unfold det_sample, det_start, det_bound.
+  change DET_MAX with 4294967295. rewrite Z.mod_small by lia.
+  destruct (4294967295 <? rate) eqn:E0; [|apply Z.ltb_ge in E0; lia].
+  unfold det_get, gen_get, thr_cmp. cbn [d_rate d_bound].
+  change DET_ALWAYS with 1. change DET_LE with true.
+  destruct (rate <=? 1) eqn:E; [apply Z.leb_le in E; lia|reflexivity].
 Qed.
 
 (* ---------- stress relief ---------- *)
 Lemma stress_sample_spec cfg h :
   0 <= cfg < 18446744073709551616 ->
-  stress_sample cfg h = (if cfg <=? 1 then 1 else cfg, spec_keep GenC10.stress_max cfg h).
+  stress_sample cfg h = (if cfg <=? 1 then 1 else cfg, spec_keep STRESS_MAX cfg h).
 Proof.
   intros Hc. unfold stress_sample, stress_update, stress_get, gen_get, spec_keep, thr_cmp.
-  change GenC10.stress_zero_becomes with 1. change GenC10.stress_always_le with 1.
-  change GenC10.stress_cmp_le with true. change GenC10.stress_max with 18446744073709551615.
+  change STRESS_ZERO with 1. change STRESS_ALWAYS with 1.
+  change STRESS_LE with true. change STRESS_MAX with 18446744073709551615.
   destruct (cfg =? 0) eqn:E0.
   - apply Z.eqb_eq in E0. subst cfg. reflexivity.
   - apply Z.eqb_neq in E0. cbn [s_rate s_bound].
@@ -205,28 +233,28 @@ Qed.
 
 Lemma stress_keep_as_bound cfg h :
   1 <= cfg < 18446744073709551616 -> 0 <= h < stress_hash_range ->
-  stress_keep cfg h = (h <=? GenC10.stress_max / cfg).
+  stress_keep cfg h = (h <=? STRESS_MAX / cfg).
 Proof.
   intros Hr Hh. unfold stress_keep. rewrite stress_sample_spec by lia. cbn [snd].
   unfold spec_keep. rewrite thr_iff by lia.
   destruct (cfg <=? 1) eqn:E; [|reflexivity].
   apply Z.leb_le in E. assert (cfg = 1) as -> by lia. cbn [orb].
   symmetry. apply Z.leb_le. change stress_hash_range with 18446744073709551616 in Hh.
-  change GenC10.stress_max with 18446744073709551615. lia.
+  change STRESS_MAX with 18446744073709551615. lia.
 Qed.
 
 Lemma stress_fraction cfg :
   1 <= cfg < 18446744073709551616 ->
   let kept := countN (stress_keep cfg) (Z.to_N stress_hash_range) in
-  kept = GenC10.stress_max / cfg + 1 /\
+  kept = STRESS_MAX / cfg + 1 /\
   stress_hash_range <= cfg * kept <= stress_hash_range + cfg - 1.
 Proof.
   intros Hr kept. subst kept.
-  rewrite (countN_ext (stress_keep cfg) (fun h => h <=? GenC10.stress_max / cfg)).
+  rewrite (countN_ext (stress_keep cfg) (fun h => h <=? STRESS_MAX / cfg)).
   2:{ intros k Hk. apply stress_keep_as_bound; [exact Hr|].
       change stress_hash_range with 18446744073709551616 in *. lia. }
-  pose proof (count_threshold GenC10.stress_max cfg) as H.
-  change GenC10.stress_max with 18446744073709551615 in *.
+  pose proof (count_threshold STRESS_MAX cfg) as H.
+  change STRESS_MAX with 18446744073709551615 in *.
   change stress_hash_range with 18446744073709551616.
   change (18446744073709551615 + 1) with 18446744073709551616 in H.
   specialize (H ltac:(lia) ltac:(lia)). cbv zeta in H. lia.
